@@ -411,6 +411,33 @@ func runC10(t *testing.T, e *worlds.Env, tier string) (bool, any) {
 			}
 		}
 		L, sample = buildLB(e, false)
+		// ip_hash is a function of the client's IP: the same IP from several source ports, over
+		// TCP and over UDP (virtual connections, or addresses declared by a PROXY header, are
+		// not *net.TCPAddr), lands on the same upstream (direct invocation on the idle pool)
+		if len(L.pool) >= 2 {
+			iph := &l4proxy.IPHashSelection{}
+			for _, udp := range []bool{false, true} {
+				want := -1
+				for port := 40000; port < 40006; port++ {
+					var ra net.Addr = simnet.TCPAddr("10.9.7.7", port)
+					if udp {
+						ra = simnet.UDPAddr("10.9.7.7", port)
+					}
+					got := -1
+					if u := iph.Select(L.pool, layer4.WrapConnection(addrConn{ra}, nil, e.Log)); u != nil {
+						for i, x := range L.pool {
+							if x == u {
+								got = i
+							}
+						}
+					}
+					if want >= 0 && got != want {
+						e.S.Fail("C10/ip_hash", "ip_hash", "ip_hash sent client 10.9.7.7 (%T) to upstream %d from source port %d and to upstream %d from port 40000, same available set", ra, got, port, want)
+					}
+					want = got
+				}
+			}
+		}
 		return L.done
 	}, func() {
 		if L == nil {
@@ -944,3 +971,16 @@ func countsAtEnd(e *worlds.Env, L *lbWorld) [][2]string {
 	}
 	return out
 }
+
+
+// addrConn is simnetDummy with a chosen remote address.
+type addrConn struct{ remote net.Addr }
+
+func (addrConn) Read([]byte) (int, error)         { return 0, net.ErrClosed }
+func (addrConn) Write([]byte) (int, error)        { return 0, net.ErrClosed }
+func (addrConn) Close() error                     { return nil }
+func (addrConn) LocalAddr() net.Addr              { return simnet.TCPAddr("10.0.0.1", 443) }
+func (c addrConn) RemoteAddr() net.Addr           { return c.remote }
+func (addrConn) SetDeadline(time.Time) error      { return nil }
+func (addrConn) SetReadDeadline(time.Time) error  { return nil }
+func (addrConn) SetWriteDeadline(time.Time) error { return nil }
